@@ -34,7 +34,7 @@ func racePass() {
 		if j := strings.Index(line, "\n"); j > 0 {
 			line = line[:j]
 		}
-		ctx.Violation("race-pass:hang", map[string]interface{}{"kind": "race", "what": "a driver call did not return within 20 s: " + line})
+		ctx.Violation("race-pass:hang", map[string]interface{}{"kind": "race", "what": "a driver call did not return within 60 s: " + line})
 		return
 	}
 	races := strings.Count(text, "WARNING: DATA RACE")
